@@ -8,6 +8,7 @@ import (
 	"runtime"
 	"sort"
 	"sync/atomic"
+	"syscall"
 	"testing"
 	"time"
 )
@@ -94,23 +95,39 @@ type Out struct {
 var runInProgress atomic.Bool
 var shrinking atomic.Bool
 
-// a scheduler step takes microseconds to milliseconds; 8 s without one (real time) means that the bubble
-// cannot come to rest: a goroutine spins, or waits for a sync.Mutex that nobody will release
-const watchdogLimit = 8 * time.Second
+// a scheduler step takes microseconds to milliseconds (a burst step: up to a few seconds). The bubble cannot come
+// to rest when a goroutine spins, or waits for a sync.Mutex that nobody will release. A spin is recognised by
+// the processor time this process has burnt since the last step, a blocked state by elapsed time; both limits
+// are far from anything a legitimate step needs even on an overloaded machine (processor time does not pass
+// while the process is starved, so load alone cannot trip the first limit).
+const (
+	watchdogCPULimit  = 30 * time.Second
+	watchdogWallLimit = 120 * time.Second
+)
+
+func processCPU() time.Duration {
+	var ru syscall.Rusage
+	if err := syscall.Getrusage(syscall.RUSAGE_SELF, &ru); err != nil {
+		return 0
+	}
+	return time.Duration(ru.Utime.Nano() + ru.Stime.Nano())
+}
 
 func startWatchdog(dump string) {
 	go func() {
 		last := stepCounter.Load()
 		lastChange := time.Now()
+		cpuAtChange := processCPU()
 		for {
 			time.Sleep(500 * time.Millisecond)
 			cur := stepCounter.Load()
 			if cur != last || !(runInProgress.Load() || shrinking.Load()) {
 				last = cur
 				lastChange = time.Now()
+				cpuAtChange = processCPU()
 				continue
 			}
-			if time.Since(lastChange) > watchdogLimit {
+			if processCPU()-cpuAtChange > watchdogCPULimit || time.Since(lastChange) > watchdogWallLimit {
 				if shrinking.Load() {
 					// a shrink candidate hangs (e.g. on a leaked lock): the violation it is shrinking has
 					// already been written out, give up minimising
@@ -122,7 +139,7 @@ func startWatchdog(dump string) {
 				if dump != "" {
 					os.WriteFile(dump, buf[:n], 0o644)
 				}
-				fmt.Fprintf(os.Stderr, "WATCHDOG: no scheduler step for %v\n%s\n", watchdogLimit, buf[:n])
+				fmt.Fprintf(os.Stderr, "WATCHDOG: no scheduler step for %v (processor time burnt meanwhile: %v)\n%s\n", time.Since(lastChange).Round(time.Second), (processCPU() - cpuAtChange).Round(time.Second), buf[:n])
 				os.Exit(3)
 			}
 		}
